@@ -11,6 +11,7 @@
 import Sq.Machine
 import SqProps.C13
 import SqLemmas.CopyLemmas
+import SqLemmas.CopyIso
 namespace SqProps.C12
 open Sq SqProps.C13
 
@@ -213,5 +214,43 @@ example : KeysPlain #[.list [.ref 1], .list [.int 7]] ∧ Closed #[.list [.ref 1
       simp [Heap.get?] at hg; subst hg
       intro v hv; simp at hv; subst hv; exact RefsLt.int
     | n + 2, hg => simp [Heap.get?] at hg
+
+/-! ### [B] the stored copy has the CONTENT of the value it was made from -/
+
+/-- **deepcopy_iso**: the copy stored by `x = e` / `c[k] = e` reads exactly like the value it was made from: at every
+    depth the two unfold to the same tree — same scalars in the same places, same lengths, same dict keys (cycles
+    included: copy and original are bisimilar as rooted graphs) — and the original still reads as before.  Together with
+    `stored_copy_is_independent` (no object shared with anything older) this is value semantics: same content, disjoint
+    objects. -/
+theorem stored_copy_has_same_content (h : Heap) (v v' : Val) (h' : Heap) (hcl : Closed h) (hv : RefsLt h.size v)
+    (hc : deepcopy' h v = .ok (v', h')) (n : Nat) :
+    unfoldT n h' v' = unfoldT n h v ∧ unfoldT n h' v = unfoldT n h v :=
+  deepcopy'_unfold h v v' h' hcl hv hc n
+
+/-- the invariant of the walk, for the record: every pair of the memo is finished at the end — the new object is the old
+    one with its children replaced through the memo -/
+theorem copy_walk_invariant (b : Nat) (h0 : Heap) (hcl : ∀ a o, a < b → h0.get? a = some o → ObjLt b o) (f : Nat)
+    (h : Heap) (m : Memo) (v v' : Val) (h2 : Heap) (m2 : Memo) (hc : deepcopy f h m v = some (v', h2, m2))
+    (hi : CI b h0 h m) (hv : RefsLt b v) : Spec b h0 h m h2 m2 ∧ Via m2 v v' :=
+  (copy_spec b h0 hcl f).1 h m v v' h2 m2 hc hi hv
+
+/-- non-vacuity: the nested list of the example above; its copy consists of two new objects and reads `[[7]]` -/
+example : (deepcopy' #[.list [.ref 1], .list [.int 7]] (.ref 0)).toOption.map (fun r => r.2.size) = some 4 ∧
+    (∀ h' v', deepcopy' #[.list [.ref 1], .list [.int 7]] (.ref 0) = .ok (v', h') →
+      unfoldT 3 h' v' = .list [.list [.leaf (.int 7)]]) := by
+  refine ⟨by decide +kernel, ?_⟩
+  intro h' v' hc
+  have hcl : Closed #[.list [.ref 1], .list [.int 7]] := by
+    intro a o hg
+    match a, hg with
+    | 0, hg =>
+      simp [Heap.get?] at hg; subst hg
+      intro v hv; simp at hv; subst hv; exact RefsLt.ref (by decide)
+    | 1, hg =>
+      simp [Heap.get?] at hg; subst hg
+      intro v hv; simp at hv; subst hv; exact RefsLt.int
+    | n + 2, hg => simp [Heap.get?] at hg
+  rw [(stored_copy_has_same_content _ _ _ _ hcl (RefsLt.ref (by decide)) hc 3).1]
+  rfl
 
 end SqProps.C12
